@@ -4,7 +4,11 @@
 From Shred Require Import Base World.
 Open Scope N_scope.
 
-Inductive handler := HDefault | HPanic.       (* DefaultProvider / PanicHandler (ReadExpect, WriteExpect) *)
+Inductive handler := HDefault | HPanic | HCustom.
+(* DefaultProvider / PanicHandler (ReadExpect, WriteExpect) / a user-written SetupHandler: the one of the
+   harness inserts the default value when the resource is missing, like DefaultProvider, and
+   ALSO appends its resource to a call log kept in the world *)
+Definition provides (h : handler) : bool := match h with HPanic => false | _ => true end.
 
 Inductive sd :=
 | SRead (ty : N) (h : handler)
@@ -36,9 +40,17 @@ Definition insert_default (dflt : N -> value) (ty : N) (w : world) : world :=
   end.
 Fixpoint sd_setup (dflt : N -> value) (d : sd) (w : world) : world :=
   match d with
-  | SRead ty HDefault | SWrite ty HDefault => insert_default dflt ty w
+  | SRead ty h | SWrite ty h => if provides h then insert_default dflt ty w else w
   | STuple l => (fix go (l : list sd) (w : world) : world := match l with [] => w | x :: r => go r (sd_setup dflt x w) end) l w
   | _ => w
+  end.
+
+(* the calls of user-written setup handlers made by one setup, in order *)
+Fixpoint sd_setup_calls (d : sd) : list N :=
+  match d with
+  | SRead ty HCustom | SWrite ty HCustom => [ty]
+  | STuple l => (fix go (l : list sd) : list N := match l with [] => [] | x :: r => sd_setup_calls x ++ go r end) l
+  | _ => []
   end.
 
 (* the leaves in fetch order: (type, exclusive?, optional?) *)
